@@ -4,7 +4,7 @@ This module provides the GeminiResponse dataclass for representing
 Gemini protocol responses.
 """
 
-from dataclasses import dataclass
+from dataclasses import dataclass, field
 
 from .status import is_redirect, is_success
 
@@ -22,6 +22,9 @@ class GeminiResponse:
             For text/* MIME types, this is a decoded string.
             For binary MIME types (images, audio, etc.), this is raw bytes.
         url: The URL this response came from (useful for tracking redirects).
+        raw_body: The body exactly as received from the network, before any
+            charset decoding (set by the client for 2x responses; used to relay
+            a response without altering it).
 
     Examples:
         >>> response = GeminiResponse(
@@ -40,6 +43,7 @@ class GeminiResponse:
     meta: str
     body: str | bytes | None = None
     url: str | None = None
+    raw_body: bytes | None = field(default=None, compare=False, repr=False)
 
     def is_success(self) -> bool:
         """Check if this response indicates success (2x status code)."""
